@@ -56,6 +56,10 @@ CHECKS["C05"] = ("exploration", "needle-scan monitor over the raw wallet databas
   "after seeded operation sequences on 1-3 wallets the persisted bytes and every output are searched for each wallet's secrets in four encodings; every wrong-passphrase attempt from a hostile candidate family on export / mnemonic / remove / sign must be refused without a database commit, across restarts and a wrong public passphrase",
   "memory zeroing is not observable and not checked; secrets are derived with harness references and the repo's hdkeychain", "§5 C05")
 
+CHECKS["C06"] = ("fault_enumeration", "crash-point enumeration through the storage interposer (freeze-and-abandon at every wallet-database commit boundary, both sides, plus double crashes) with a never-stopped twin and the reference ledger as oracles",
+  "for each deterministic scenario variant (live following with reorgs; orderly stop + node moves on + start-up catch-up; background removal while blocks arrive) every commit boundary k of the crash-free run is used as crash point before and after the commit; the restarted wallet must come up, finish background work and end in exactly the twin's observation record and the ledger",
+  "crash model: the files hold exactly the first k commits (LevelDB batch write is the only write path); volatile state is lost by abandoning the instance; multi-batch imports are covered by C07", "§5 C06")
+
 NOT_APPLICABLE = {}
 
 def main():
